@@ -37,6 +37,11 @@ Roots ==
   \cup { Call("dyn", as) : as \in {<<>>, <<X, X>>} }
   \cup { Var(n) : n \in HostileIdents } \cup { Bin("+", Var(n), Lit(I(1))) : n \in HostileIdents }
   \cup { Macro("map", Lit(List(<<I(1)>>)), n, Var(n)) : n \in HostileIdents } \cup { Sel(Lit(Map(<< <<S(<<97>>), I(1)>> >>)), <<97>>) : n \in {1} }
+  \cup { MsgLit(n, fs) : n \in {"M", "google.protobuf.Int32Value", "google.protobuf.Duration"},
+                       fs \in { <<>>, << <<"value", Lit(I(1))>> >>, << <<"value", Lit(I(1))>>, <<"value", Lit(I(2))>> >>, << <<"a", Lit(I(1))>>, <<"b", ErrLeaf>>, <<"a", Lit(I(2))>> >>,
+                                 << <<"value", ErrLeaf>> >>, << <<"seconds", Lit(S(<<97>>))>> >> } }
+  \* the extension macros on lists whose items have no common ordering / no items
+  \cup { MCall(l, "min", <<>>) : l \in { Lit(List(<<I(1), S(<<97>>)>>)), Lit(List(<<>>)), Lit(List(<<Null, I(1)>>)), Lit(List(<<List(<<>>), List(<<>>)>>)), Lit(Map(<< <<S(<<97>>), I(1)>> >>)) } }
   \cup { ListE(<<a, b>>) : a \in Leaves, b \in Few } \cup { MapE(<< <<a, b>> >>) : a \in Leaves, b \in Few } \cup { MapE(<< <<b, a>> >>) : a \in Leaves, b \in Few }
 Alphabet == { Syn!Id("a"), Syn!Lit("1"), Syn!Lit("true"), Syn!P("("), Syn!P(")"), Syn!P("["), Syn!P("]"), Syn!P("{"), Syn!P("}"), Syn!P("."), Syn!P(","),
               Syn!P("?"), Syn!P(":"), Syn!P("+"), Syn!P("-"), Syn!P("!"), Syn!P("&&"), Syn!P("=="), Syn!P("in") }
